@@ -43,6 +43,7 @@ class Result:
         self.samples = []
         self.validated = 0           # executions re-run / cross-checked through a second path with identical observation
         self.caps = {}               # name -> description of any cap that was hit
+        self.union_keys = False      # True: state / non-trivial hashes may repeat across scenarios (shards of one BFS)
         self.extra = collections.Counter()
 
     def violation(self, signature, message, replay, size=0):
@@ -57,8 +58,12 @@ class Result:
                     (b["size"], json.dumps(b["replay"], sort_keys=True, default=str)):
                 best[v["signature"]] = v
         counts = collections.Counter(v["signature"] for v in self.violations)
+        # states and non-trivial cases are keyed by their scenario, so per-scenario distinct counts add up exactly: only the
+        # counts travel to the parent (shipping the sets made the parent's union grow to gigabytes on thorough runs)
         return dict(executions=self.executions, states=len(self.states), transitions=self.transitions,
-                    nontrivial=self.nontrivial, outcomes=self.outcomes, violations=list(best.values()),
+                    nontrivial=len(self.nontrivial), outcomes=self.outcomes, violations=list(best.values()),
+                    state_set=self.states if self.union_keys else None,
+                    nontrivial_set=self.nontrivial if self.union_keys else None,
                     vcounts=counts, samples=self.samples[:2], validated=self.validated, caps=self.caps,
                     extra=self.extra)
 
@@ -94,9 +99,13 @@ def run_check(modname, tier, seed, jobs=None):
     prop = mod.PROPERTY
     scs = mod.scenarios(tier, seed)
     jobs = jobs or int(os.environ.get("VERIF_JOBS", "16"))
-    budget = float(os.environ.get("VERIF_BUDGET_S", "0")) or getattr(mod, "BUDGET_S", {}).get(tier)
+    # wall budget: never silently run away; when it is hit the run stops submitting scenarios and reports the cap
+    budget = float(os.environ.get("VERIF_BUDGET_S", "0")) or getattr(mod, "BUDGET_S", {}).get(tier) or \
+        (1800.0 if tier == "thorough" else 600.0)
     agg = dict(executions=0, states=0, transitions=0, validated=0)
-    nontrivial = set()
+    nontrivial = 0
+    union_states = set()
+    union_nontrivial = set()
     outcomes = collections.Counter()
     extra = collections.Counter()
     vcounts = collections.Counter()
@@ -105,42 +114,84 @@ def run_check(modname, tier, seed, jobs=None):
     caps = {}
     errors = []
     done = 0
-    ctx = multiprocessing.get_context("fork")
     work = [(modname, tier, sc) for sc in scs]
-    chunks = 1  # scenarios differ widely in cost: let the pool balance them one by one
+
+    def consume(status, payload):
+        nonlocal nontrivial, done
+        if status == "err":
+            errors.append(payload)
+            return False
+        done += 1
+        for k in agg:
+            if k == "states" and payload["state_set"] is not None:
+                continue
+            agg[k] += payload[k]
+        if payload["state_set"] is not None:
+            # shards of one search: the same state can be reached in several shards, count it once
+            n0 = len(union_states)
+            union_states.update(payload["state_set"])
+            agg["states"] += len(union_states) - n0
+            n0 = len(union_nontrivial)
+            union_nontrivial.update(payload["nontrivial_set"])
+            nontrivial += len(union_nontrivial) - n0
+        else:
+            nontrivial += payload["nontrivial"]
+        outcomes.update(payload["outcomes"])
+        extra.update(payload["extra"])
+        vcounts.update(payload["vcounts"])
+        caps.update(payload["caps"])
+        if len(samples) < 3 and payload["samples"]:
+            samples.append(payload["samples"][0])
+        for v in payload["violations"]:
+            b = best.get(v["signature"])
+            if b is None or v["size"] < b["size"]:
+                best[v["signature"]] = v
+        return True
+
     if jobs == 1:
         _init_worker()
-        it = map(_worker, work)
-        pool = None
+        for w in work:
+            if not consume(*_worker(w)):
+                break
     else:
-        pool = ctx.Pool(jobs, initializer=_init_worker)
-        it = pool.imap_unordered(_worker, work, chunksize=chunks)
-    try:
-        for status, payload in it:
-            if status == "err":
-                errors.append(payload)
-                break
-            done += 1
-            for k in agg:
-                agg[k] += payload[k]
-            nontrivial |= payload["nontrivial"]
-            outcomes.update(payload["outcomes"])
-            extra.update(payload["extra"])
-            vcounts.update(payload["vcounts"])
-            caps.update(payload["caps"])
-            if len(samples) < 3 and payload["samples"]:
-                samples.append(payload["samples"][0])
-            for v in payload["violations"]:
-                b = best.get(v["signature"])
-                if b is None or v["size"] < b["size"]:
-                    best[v["signature"]] = v
-            if budget and time.time() - t0 > budget:
-                caps["wall_budget"] = f"stopped after {done}/{len(work)} scenarios ({budget}s budget)"
-                break
-    finally:
-        if pool is not None:
-            pool.terminate()
-            pool.join()
+        import concurrent.futures as cf
+        ctx = multiprocessing.get_context("fork")
+        # a sliding window of submitted scenarios; a worker that dies (e.g. killed for memory) breaks the pool loudly
+        # instead of hanging the run
+        ex = cf.ProcessPoolExecutor(max_workers=jobs, mp_context=ctx, initializer=_init_worker)
+        try:
+            pending = set()
+            it = iter(work)
+            stop = False
+            while True:
+                while not stop and len(pending) < jobs * 4:
+                    w = next(it, None)
+                    if w is None:
+                        break
+                    pending.add(ex.submit(_worker, w))
+                if not pending:
+                    break
+                finished, pending = cf.wait(pending, return_when=cf.FIRST_COMPLETED)
+                for f in finished:
+                    try:
+                        status, payload = f.result()
+                    except Exception as e:  # BrokenProcessPool etc.
+                        status, payload = "err", f"worker pool failure: {type(e).__name__}: {e}"
+                    if not consume(status, payload):
+                        stop = True
+                if errors:
+                    break
+                if budget and time.time() - t0 > budget and not stop:
+                    caps["wall_budget"] = f"stopped submitting after {done}/{len(work)} scenarios ({budget}s budget)"
+                    stop = True
+        finally:
+            procs = list((getattr(ex, "_processes", None) or {}).values())
+            ex.shutdown(wait=False, cancel_futures=True)
+            for p in procs:
+                try:
+                    p.terminate()
+                except Exception:
+                    pass
     if errors:
         print("HARNESS-ERROR", errors[0], file=sys.stderr)
         return 2
@@ -164,7 +215,7 @@ def run_check(modname, tier, seed, jobs=None):
         states=agg["states"], transitions=agg["transitions"],
         traces_validated_against_impl=agg["validated"],
         samples=samples or [repr(scs[0])],
-        evaluations=agg["executions"], distinct_nontrivial=len(nontrivial), rule=mod.RULE,
+        evaluations=agg["executions"], distinct_nontrivial=nontrivial, rule=mod.RULE,
         exhaustive=exhaustive, scenarios=done, scenarios_total=len(work),
         outcomes={str(k): n for k, n in sorted(outcomes.items(), key=lambda kv: str(kv[0]))},
         distinct_outcomes=len(outcomes), caps=caps, bounds=getattr(mod, "BOUNDS", {}).get(tier, {}),
@@ -180,7 +231,7 @@ def run_check(modname, tier, seed, jobs=None):
         json.dump(evidence, f, indent=1, default=str)
         f.write("\n")
     print(f"{prop} {tier}: scenarios={done}/{len(work)} executions={agg['executions']} states={agg['states']} "
-          f"transitions={agg['transitions']} distinct_nontrivial={len(nontrivial)} outcomes={len(outcomes)} "
+          f"transitions={agg['transitions']} distinct_nontrivial={nontrivial} outcomes={len(outcomes)} "
           f"exhaustive={exhaustive} wall={wall:.1f}s")
     for sig, v, rep_path in new:
         print(f"  {sig}: {v['message']}")
